@@ -247,11 +247,11 @@ def coq_properties(pid, timeout=1500):
 def regenerate_tables():
     """R-gen: rewrite coq/gen/*.v from /repo/src (only when content changed)."""
     sys.path.insert(0, os.path.join(ROOT, "tools"))
+    import translate
     try:
-        import translate
-    except ImportError:
-        return
-    translate.run(REPO, os.path.join(COQ, "gen"))
+        translate.run(REPO, os.path.join(COQ, "gen"))
+    except Exception as e:   # a translator that no longer understands the source = broken obligation
+        raise BuildError("table translation from %s/src failed: %r" % (REPO, e))
 
 
 def ocaml_driver(fam, timeout=900):
@@ -309,10 +309,16 @@ def ocaml_driver(fam, timeout=900):
 # --------------------------------------------------------------------------- known findings
 
 def known_findings(pid):
-    p = os.path.join(ROOT, "known_findings.json")
-    if not os.path.exists(p):
-        return []
-    return [f for f in json.load(open(p))["findings"] if f["property"] == pid and f["status"] == "open"]
+    """open findings for pid from known_findings.json (+ known_findings.d/*.json while a builder is at work)"""
+    files = [os.path.join(ROOT, "known_findings.json")]
+    d = os.path.join(ROOT, "known_findings.d")
+    if os.path.isdir(d):
+        files += [os.path.join(d, f) for f in sorted(os.listdir(d)) if f.endswith(".json")]
+    out = []
+    for p in files:
+        if os.path.exists(p):
+            out += [f for f in json.load(open(p))["findings"] if f["property"] == pid and f["status"] == "open"]
+    return out
 
 
 # --------------------------------------------------------------------------- report
